@@ -18,9 +18,38 @@ import (
 
 var log = logging.Logger("autoconf")
 
-// writeOwnerOnlyFile writes data to a file with owner-only permissions (0600)
-func writeOwnerOnlyFile(filename string, data []byte) error {
-	return os.WriteFile(filename, data, filePermOwnerReadWrite)
+// writeOwnerOnlyFile writes data to a file with owner-only permissions (0600).
+//
+// The data is written to a temporary file in the same directory which is then
+// renamed into place, so that a process that stops while writing never leaves a
+// truncated or partially written file under the final name (the cache reader
+// would otherwise find a corrupt "newest" version, or an overwritten previous
+// one, and fall back to the built-in defaults).
+func writeOwnerOnlyFile(filename string, data []byte) (err error) {
+	tmp, err := os.CreateTemp(filepath.Dir(filename), ".tmp-"+filepath.Base(filename)+"-*")
+	if err != nil {
+		return err
+	}
+	tmpName := tmp.Name()
+	defer func() {
+		if err != nil {
+			tmp.Close()
+			os.Remove(tmpName)
+		}
+	}()
+	if err = tmp.Chmod(filePermOwnerReadWrite); err != nil {
+		return err
+	}
+	if _, err = tmp.Write(data); err != nil {
+		return err
+	}
+	if err = tmp.Sync(); err != nil {
+		return err
+	}
+	if err = tmp.Close(); err != nil {
+		return err
+	}
+	return os.Rename(tmpName, filename)
 }
 
 const (
